@@ -11,7 +11,7 @@ ENTRY = {
         "design_ref": "DESIGN.md section 4 C20",
         "note": "Trusted: TLC, the harness's line renderer/recogniser and cursor projection, lossless run-length encoding of read results. "
                 "Files are well-formed (newline-terminated non-empty lines shorter than 16 KiB, strictly increasing timestamps). "
-                "Reads on a reader that was never positioned are outside the statement and not exercised. "
+                "Reads on a reader that was never positioned are outside the statement and not exercised; a seek that reports an error must leave the cursor unchanged (file level and two-file reader). "
                 "The reader level is validated against the abstract spec only (its fallthrough loop is proved against the file-level outcomes by TLC as a lemma).",
         "technique": "TLA+ refinement (algorithm => abstract) checked by TLC; edge-relation replay into real code + TLC trace validation at abstract and algorithm level",
     }
